@@ -9,3 +9,5 @@ import common
 print("mutation sites:", len(mutation_sites.generate(common.REPO, os.path.join(common.LEAN, "SSEPyVerif", "Generated", "MutationSites.lean"))))
 from translate import wire_layout
 print("wire layouts:", len(wire_layout.generate(common.REPO, os.path.join(common.LEAN, "SSEPyVerif", "Generated", "WireLayout.lean"))))
+from translate import config_facts
+print("config facts:", len(config_facts.generate(common.REPO, os.path.join(common.LEAN, "SSEPyVerif", "Generated", "ConfigFacts.lean"))))
